@@ -6,6 +6,26 @@ CLAIMS = {
         "text": "Decides structurally, on all paths of the handshake code: an authenticated identity is constructed only on the success edge of a signature verification of that same key; verify functions return Ok only through strict signature verification over the fresh challenge / TLS exporter; confirmation is written only on Access::Allow; registration requires it. Static verdict on code shape, not a proof of cryptographic strength.",
         "technique": "MIR success-edge dominance (requires_success) + constructor-site and who-calls inventories + derives-from slices",
     },
+    "C04": {
+        "text": "Decides structurally: the sender id of every forwarded packet is exactly the authenticated identity held by the connection guard (copy-chain provenance, independent of the frame), packets are enqueued only on the active connection registered under the frame's destination, and Packet -> Datagrams message conversion only moves src/data. Ordering/at-most-once are properties of the mpsc channel and not decided.",
+        "technique": "MIR copy-chain provenance + who-calls/who-constructs/who-writes inventories + select!-arm attribution",
+    },
+    "C05": {
+        "text": "Foreign-data fatality analysis of the per-connection actor: every error variant constructed under a test of a forwarded message on the call chain packet arm -> send_packet -> send_raw -> write_frame -> Sink::start_send must be absorbed before it can reach an exit of the run loop; the message queue carries server-built messages only; full/closed queues never end the sender's handler.",
+        "technique": "select!-arm attribution, control-dependence of error constructor sites on message-derived tests, variant-absorption check on the resolved call chain (with SinkExt::send summary)",
+    },
+    "C06": {
+        "text": "Decides the shape of the registry transitions on all paths: who mutates the map / active slot, replace-notify-park on register, LIFO promotion + Healthy on unregister of the active connection, entry and sent-to set removed only when nothing is parked, retain-only for inactive, notifications outside the shard guard. Multi-connection histories as values are not explored.",
+        "technique": "who-writes inventory over DashMap mutators, success-edge dominance on the closure's tests, copy-chain provenance, push/pop table agreement",
+    },
+    "C07": {
+        "text": "Ownership argument covering every fault point at once: OnDisconnectGuard is a non-Clone RAII token, constructed with access control only on the Allow arm for the same request before the confirmation write, moved Config -> Client::new -> Actor, consumed by unregister on every normal exit; Drop is the only on_disconnect caller; no leak primitive has a call site; ConnectionId comes from one fetch_add.",
+        "technique": "constructor/who-calls inventories, impl table (no Clone/Copy), dominance/post-dominance on MIR, zero-count leak rule, copy-chain provenance",
+    },
+    "C08": {
+        "text": "Static revocation-visibility rule: reports the window between publication of the connection id (on_connect) and the registry insert when a suspension point lies between them and a missed disconnect leaves no state that registration consults (currently a recorded known finding); plus: disconnect only shuts down connections found under the given endpoint/connection id.",
+        "technique": "must-precede + yield-between on coroutine MIR, who-writes/reads of registry fields, success-edge dominance",
+    },
 }
 
 _PENDING = "rules for this property are not implemented yet in this revision (see DESIGN.md §4 for the planned structural clauses)"
